@@ -211,7 +211,8 @@ void c18_check_parts_nd(const char *pfx, const double * const *v, int dims, size
 					char det[300];
 					size_t l = 0;
 					for (int d = 0; d < dims && l + 60 < sizeof(det); d++) l += snprintf(det + l, sizeof(det) - l, " dim %d: %.17g -> %.17g in [%.17g,%.17g];", d, v[d][o], usr >= 2 ? v[d][o + 1] : v[d][o], range[d][0], range[d][1]);
-					vf_fail(key(pfx, "cut-fraction"), "%s: cut decodes to %.9Lf, the line enters the visible box at %.9Lf of its first segment;%s", pd, dec, cut, det);
+					const char *kk = key(pfx, dec < cut ? "cut-fraction-too-small" : "cut-fraction-too-large");
+					if (!vf_known(kk)) vf_fail(kk, "%s: cut decodes to %.9Lf, the line enters the visible box at %.9Lf of its first segment;%s", pd, dec, cut, det);
 				}
 			}
 			if (trim_known) {
@@ -221,7 +222,10 @@ void c18_check_parts_nd(const char *pfx, const double * const *v, int dims, size
 					char det[300];
 					size_t l = 0;
 					for (int d = 0; d < dims && l + 60 < sizeof(det); d++) l += snprintf(det + l, sizeof(det) - l, " dim %d: %.17g <- %.17g in [%.17g,%.17g];", d, usr >= 2 ? v[d][o + usr - 2] : v[d][o], v[d][o + usr - 1], range[d][0], range[d][1]);
-					vf_fail(key(pfx, "trim-fraction"), "%s: trim decodes to %.9Lf, the line leaves the visible box at %.9Lf of its last segment (from the end);%s", pd, dec, trim, det);
+					/* two directions, two keys: a leaving crossing that is not represented (line drawn beyond the
+					 * boundary) / a fraction that belongs to no crossing of the last segment (visible line removed) */
+					const char *kk = key(pfx, dec < trim ? "trim-fraction-too-small" : "trim-fraction-too-large");
+					if (!vf_known(kk)) vf_fail(kk, "%s: trim decodes to %.9Lf, the line leaves the visible box at %.9Lf of its last segment (from the end);%s", pd, dec, trim, det);
 				}
 			}
 			for (size_t i = o; i < o + usr; i++) if (cover[i] < 3) cover[i]++;
